@@ -9,6 +9,6 @@ git -C /repo worktree add -q --detach $wt HEAD || exit 2
 cd $wt
 if ! git apply /verif/seeded/$id/patch.diff; then echo "PATCH DOES NOT APPLY"; cd /; git -C /repo worktree remove --force $wt; exit 3; fi
 for p in "$@"; do
-  VERIF_REPO=$wt /verif/bin/gosym check -p $p -no-evidence 2>&1 | grep -E "^(VIOLATION|KNOWN|gosym:|INCONCLUSIVE|counterexample)" | cut -c1-330 | head -8
+  VERIF_REPO=$wt ${GOSYM:-/verif/bin/gosym} check -p $p -no-evidence 2>&1 | grep -E "^(VIOLATION|KNOWN|gosym:|INCONCLUSIVE|counterexample)" | cut -c1-330 | head -8
 done
 cd /; git -C /repo worktree remove --force $wt
